@@ -15,9 +15,13 @@ def gen():
     return g
 
 
-def safe(fn):
+def safe(fn, seconds=10.0):
+    """one call of the function under test, under a time and memory limit (a call that does not end is a result, not a hang)"""
+    from vlib import graphwalk
     try:
-        return fn()
+        return graphwalk.guarded(fn, seconds)
+    except graphwalk.Timeout:
+        return {"exc": "does not terminate (no result within %.0f s, or unbounded allocation)" % seconds}
     except Exception as e:
         return {"exc": type(e).__name__ + ": " + str(e)[:60]}
 
